@@ -20,6 +20,7 @@ type UnitResult struct {
 	Tags        []string
 	Obls        []*Obligation
 	Unsupported string
+	Unbound     []string // name prefixes of atcall obligations whose clause matched no call site
 	Notes       []string
 	Paths       int
 	World       *World
@@ -127,8 +128,11 @@ func (e *Engine) VerifyFunc(con *Contract, workdir string, timeoutS int, all boo
 	res.World = x.w
 	for _, c := range con.AtCalls {
 		if fn != nil && len(e.callSitePositions(fn, c.Site)) == 0 {
-			res.Unsupported = fmt.Sprintf("atcall clause [%s]: no call site of %s matches %q (a clause that binds nowhere would be vacuous)", c.Label, key, c.Site)
-			return res
+			// a clause that binds nowhere would be vacuous. If its obligation was discharged on the
+			// pinned tree the code has changed under it: that is reported as UNDECIDED through the
+			// ledger (obligation no longer generated). If it never existed the contract is wrong.
+			res.Unbound = append(res.Unbound, fmt.Sprintf("%s#atcall[%s@", key, c.Label))
+			res.Notes = append(res.Notes, fmt.Sprintf("atcall clause [%s]: no call site of %s matches %q", c.Label, key, c.Site))
 		}
 	}
 	if con.ImplicitOnly != nil {
@@ -256,7 +260,7 @@ func (e *Engine) VerifyFunc(con *Contract, workdir string, timeoutS int, all boo
 	if x.feas != nil {
 		res.Pruned = x.feas.pruned
 	}
-	res.Notes = dedupe(x.notes)
+	res.Notes = dedupe(append(res.Notes, x.notes...))
 	res.Obls = x.obls
 	if res.Unsupported == "" && len(x.vacuous) > 0 && !con.Canary {
 		res.Unsupported = "vacuity: " + strings.Join(dedupe(x.vacuous), "; ")
